@@ -2,6 +2,7 @@
 //
 //	names replay <vectors.ndjson>      TLC-generated vectors -> real API, compare with the spec's results
 //	names record <c03|c19> <out.ndjson> <n>   random cases through the real API, logged for Trace_Names
+//	names rerun <events.ndjson> <out.ndjson>  the inputs of recorded events through the real API again (replay)
 package main
 
 import (
@@ -92,6 +93,8 @@ func main() {
 	case "record":
 		n, _ := strconv.Atoi(os.Args[4])
 		record(os.Args[2], os.Args[3], n)
+	case "rerun":
+		rerun(os.Args[2], os.Args[3])
 	default:
 		hx.Die("unknown mode %s", os.Args[1])
 	}
@@ -413,6 +416,16 @@ type evUnpack struct {
 	IsDN  bool   `json:"isdn"`  // IsDomainName(text)
 }
 
+// respell: a name written in a random mix of the spellings a text may use for each octet (the octet itself, \c, \DDD),
+// whether or not UnpackDomainName would write it so, given to the real packer and the real IsDomainName
+type evRespell struct {
+	Ev   string `json:"ev"`
+	Text hx.B   `json:"text"`
+	Ok   bool   `json:"ok"`   // PackDomainName(text) succeeded
+	Wire hx.B   `json:"wire"` // and produced these octets
+	IsDN bool   `json:"isdn"` // IsDomainName(text)
+}
+
 type evHelpers struct {
 	Ev     string  `json:"ev"`
 	Text   hx.B    `json:"text"`
@@ -430,6 +443,94 @@ type evCompare struct {
 	B   hx.B   `json:"b"`
 	N   int    `json:"n"`
 	Sub bool   `json:"sub"`
+}
+
+// The observations: inputs -> the real code's results.  `record` applies them to random inputs, `rerun` to the inputs of
+// events recorded earlier (replay of a finding against the code as it is now).
+func obsUnpack(wire []byte, off int) evUnpack {
+	e := evUnpack{Ev: "unpack", Wire: hx.FromBytes(wire), Off: off}
+	s, next, err := dns.UnpackDomainName(wire, off)
+	e.Ok = err == nil
+	if err == nil {
+		e.Text, e.Next = hx.FromString(s), next
+		_, e.IsDN = dns.IsDomainName(s)
+		if w2, err := pack(s); err == nil {
+			e.Ok2, e.Wire2 = true, hx.FromBytes(w2)
+		}
+	}
+	return e
+}
+
+func obsRespell(s string) evRespell {
+	e := evRespell{Ev: "respell", Text: hx.FromString(s)}
+	_, e.IsDN = dns.IsDomainName(s)
+	if w2, err := pack(s); err == nil {
+		e.Ok, e.Wire = true, hx.FromBytes(w2)
+	}
+	return e
+}
+
+func obsHelpers(s string) evHelpers {
+	e := evHelpers{Ev: "helpers", Text: hx.FromString(s), Count: dns.CountLabel(s), Split: dns.Split(s), Canon: hx.FromString(dns.CanonicalName(s))}
+	if e.Split == nil {
+		e.Split = []int{}
+	}
+	e.Pieces = []hx.B{}
+	for _, p := range dns.SplitDomainName(s) {
+		e.Pieces = append(e.Pieces, hx.FromString(p))
+	}
+	e.Prev, e.Next = [][]int{}, [][]int{}
+	if s != "." {
+		for k := 0; k <= e.Count+1; k++ {
+			i, st := dns.PrevLabel(s, k)
+			e.Prev = append(e.Prev, []int{i, b2i(st)})
+		}
+	}
+	for _, o := range e.Split {
+		i, end := dns.NextLabel(s, o)
+		e.Next = append(e.Next, []int{i, b2i(end)})
+	}
+	return e
+}
+
+func obsCompare(sa, sb string) evCompare {
+	return evCompare{Ev: "compare", A: hx.FromString(sa), B: hx.FromString(sb), N: dns.CompareDomainName(sa, sb), Sub: dns.IsSubDomain(sb, sa)}
+}
+
+// rerun: the inputs of recorded events through the real code again
+func rerun(in, out string) {
+	type anyEv struct {
+		Ev   string `json:"ev"`
+		Wire hx.B   `json:"wire"`
+		Off  int    `json:"off"`
+		Text hx.B   `json:"text"`
+		A    hx.B   `json:"a"`
+		B    hx.B   `json:"b"`
+	}
+	w := hx.NewWriter(out)
+	defer w.Close()
+	var sum hx.Summary
+	hx.ReadNDJSON(in, func(i int, e *anyEv) {
+		sum.Evaluations++
+		if p := hx.Catch(func() {
+			switch e.Ev {
+			case "unpack":
+				w.Emit(obsUnpack(e.Wire.Bytes(), e.Off))
+			case "respell":
+				w.Emit(obsRespell(e.Text.String()))
+			case "helpers":
+				w.Emit(obsHelpers(e.Text.String()))
+			case "compare":
+				w.Emit(obsCompare(e.A.String(), e.B.String()))
+			default:
+				hx.Die("rerun: unknown event %q", e.Ev)
+			}
+		}); p != "" {
+			sum.Mis("names/panic:record-rerun", "panic while re-running a recorded "+e.Ev+" event: "+p, e)
+		}
+	})
+	sum.Note("events", w.N)
+	sum.Print()
 }
 
 func b2i(b bool) int {
@@ -490,6 +591,27 @@ func record(which, out string, n int) {
 		}
 		return ls
 	}
+	// crowdName: labels of one octet (some of two or three), as many as fit: the label COUNT nears its maximum of 127
+	// together with the octet count (randName stops after six labels on average)
+	crowdName := func(target int) [][]byte {
+		var ls [][]byte
+		kind := r.Intn(3)
+		tot := 1
+		for tot+2 <= target {
+			l := 1
+			if kind == 1 && r.Intn(8) == 0 {
+				l = 2
+			} else if kind == 2 {
+				l = 1 + r.Intn(3)
+			}
+			if tot+1+l > target {
+				l = target - tot - 1
+			}
+			ls = append(ls, randLabel(l))
+			tot += 1 + l
+		}
+		return ls
+	}
 	enc := func(ls [][]byte) []byte {
 		var b []byte
 		for _, l := range ls {
@@ -500,7 +622,7 @@ func record(which, out string, n int) {
 	}
 	for i := 0; i < n; i++ {
 		sum.Evaluations++
-		if p := hx.Catch(func() { recordOne(which, i, r, w, &sum, seen, randName, enc) }); p != "" {
+		if p := hx.Catch(func() { recordOne(which, i, r, w, &sum, seen, randName, crowdName, enc) }); p != "" {
 			sum.Mis("names/panic:record-"+which, "panic while recording: "+p, map[string]interface{}{"which": which, "i": i})
 		}
 	}
@@ -510,13 +632,45 @@ func record(which, out string, n int) {
 }
 
 func recordOne(which string, i int, r *rand.Rand, w *hx.Writer, sump *hx.Summary, seen map[string]bool,
-	randName func(int) [][]byte, enc func([][]byte) []byte) {
+	randName, crowdName func(int) [][]byte, enc func([][]byte) []byte) {
 	sum := sump
 	{
 		switch which {
 		case "c03":
 			target := []int{3, 10, 60, 200, 250, 253, 254, 255, 256, 257, 260}[r.Intn(11)]
 			ls := randName(target)
+			if target >= 200 && r.Intn(16) == 0 {
+				ls = crowdName(target)
+			}
+			if i%4 == 3 {
+				// the text side: the same kind of name in a random spelling
+				var t []byte
+				for _, l := range ls {
+					for _, c := range l {
+						k := r.Intn(3)
+						switch {
+						case k == 0 && c != '.' && c != '\\':
+							t = append(t, c)
+						case k == 1 && (c < '0' || c > '9'): // \c with c a digit is not a spelling RFC 1035 defines
+							t = append(t, '\\', c)
+						default:
+							t = append(t, '\\', '0'+c/100, '0'+c/10%10, '0'+c%10)
+						}
+					}
+					t = append(t, '.')
+				}
+				if len(ls) == 0 {
+					t = []byte(".")
+				}
+				s := string(t)
+				e := obsRespell(s)
+				seen["t:"+s] = true
+				w.Emit(e)
+				if i < 8 {
+					sum.Sample(e)
+				}
+				return
+			}
 			wire := enc(ls)
 			off := 0
 			if r.Intn(5) == 0 && len(wire) < 200 { // name reached through a compression pointer
@@ -531,16 +685,7 @@ func recordOne(which string, i int, r *rand.Rand, w *hx.Writer, sump *hx.Summary
 				wire = append(append(append(pre, wire...), fb...), 0xC0|byte(len(pre)>>8), byte(len(pre)))
 				off = k
 			}
-			e := evUnpack{Ev: "unpack", Wire: hx.FromBytes(wire), Off: off}
-			s, next, err := dns.UnpackDomainName(wire, off)
-			e.Ok = err == nil
-			if err == nil {
-				e.Text, e.Next = hx.FromString(s), next
-				_, e.IsDN = dns.IsDomainName(s)
-				if w2, err := pack(s); err == nil {
-					e.Ok2, e.Wire2 = true, hx.FromBytes(w2)
-				}
-			}
+			e := obsUnpack(wire, off)
 			seen[string(wire)] = true
 			w.Emit(e)
 			if i < 3 {
@@ -549,6 +694,9 @@ func recordOne(which string, i int, r *rand.Rand, w *hx.Writer, sump *hx.Summary
 		case "c19":
 			if i%3 != 2 {
 				ls := randName([]int{5, 12, 30, 80, 200, 255}[r.Intn(6)])
+				if r.Intn(10) == 0 {
+					ls = crowdName([]int{200, 253, 254, 255, 255}[r.Intn(5)])
+				}
 				s, _, err := dns.UnpackDomainName(enc(ls), 0)
 				if err != nil {
 					hx.Die("unpack of generated name failed: %v", err)
@@ -559,25 +707,7 @@ func recordOne(which string, i int, r *rand.Rand, w *hx.Writer, sump *hx.Summary
 						s += "."
 					}
 				}
-				e := evHelpers{Ev: "helpers", Text: hx.FromString(s), Count: dns.CountLabel(s), Split: dns.Split(s), Canon: hx.FromString(dns.CanonicalName(s))}
-				if e.Split == nil {
-					e.Split = []int{}
-				}
-				e.Pieces = []hx.B{}
-				for _, p := range dns.SplitDomainName(s) {
-					e.Pieces = append(e.Pieces, hx.FromString(p))
-				}
-				e.Prev, e.Next = [][]int{}, [][]int{}
-				if s != "." {
-					for k := 0; k <= e.Count+1; k++ {
-						i, st := dns.PrevLabel(s, k)
-						e.Prev = append(e.Prev, []int{i, b2i(st)})
-					}
-				}
-				for _, o := range e.Split {
-					i, end := dns.NextLabel(s, o)
-					e.Next = append(e.Next, []int{i, b2i(end)})
-				}
+				e := obsHelpers(s)
 				seen[s] = true
 				w.Emit(e)
 				if i < 2 {
@@ -587,6 +717,10 @@ func recordOne(which string, i int, r *rand.Rand, w *hx.Writer, sump *hx.Summary
 				// related pair: common suffix with random case flips, different prefixes
 				suf := randName([]int{1, 5, 20, 60}[r.Intn(4)])
 				a := append(randName(1+r.Intn(40)), suf...)
+				if r.Intn(10) == 0 { // a crowded name against one of its own suffixes or a sibling of it
+					a = crowdName([]int{200, 253, 254, 255, 255}[r.Intn(5)])
+					suf = a[r.Intn(len(a)):]
+				}
 				sufb := make([][]byte, len(suf))
 				for j, l := range suf {
 					c := append([]byte(nil), l...)
@@ -610,7 +744,7 @@ func recordOne(which string, i int, r *rand.Rand, w *hx.Writer, sump *hx.Summary
 				if e1 != nil || e2 != nil {
 					return
 				}
-				e := evCompare{Ev: "compare", A: hx.FromString(sa), B: hx.FromString(sb), N: dns.CompareDomainName(sa, sb), Sub: dns.IsSubDomain(sb, sa)}
+				e := obsCompare(sa, sb)
 				seen[sa+"|"+sb] = true
 				w.Emit(e)
 				if i < 4 {
